@@ -110,7 +110,7 @@ def _scan_items(toks, lo, hi):
                 j += 1
             if end is None:
                 raise ValueError("could not find end of item %s %s" % (kw, name))
-            yield (kw, name, item_start, end, body_open, k)
+            yield (kw, name, (start if kw in ("struct", "enum") else item_start), end, body_open, k)
             k = end
         else:
             # macro invocation at item level (lazy_static! {..}, etc.) or stray token: skip to end of braces / ';'
